@@ -1,61 +1,15 @@
+import UtlsVerif.SessionCtlPreset
+import UtlsVerif.SessionCtlLoad
 import UtlsVerif.SessionCtlTail
+import UtlsVerif.SessionCtlLocked
 /-!
-# SessionCtlBuild — invariants of the `SessionCtl` machine, part 3
+# SessionCtlBuild — specification of `buildHandshakeState` on a parrot / HelloCustom connection
 
-Composition of the piece specifications into the specification of `buildHandshakeState` on a
-parrot / HelloCustom connection (`build_parrot`): a build on a locked connection changes no session
-field; a build on a not yet built hello goes through the preset (unless HelloCustom) and the tail,
-and can only fail with the two "specification doesn't contain one" errors or the documented
-`assertCanSkip` panic.
+A build on a locked connection changes no session field; a build on a not yet built hello goes
+through the preset (unless HelloCustom) and the tail, and can only fail with the two
+"specification doesn't contain one" errors or the documented `assertCanSkip` panic.
 -/
 namespace SessionCtl
-
-/-- the state after the tail of a build that started in a `mid` state `s`. -/
-def tailOk (load : Bool) (s s' : St) : Bool :=
-  !s'.hsDone && s'.hasCache == s.hasCache && s'.tRef == s.tRef && s'.pRef == s.pRef && s'.lT == s.lT && s'.lP == s.lP
-  && s'.sharesFilled == s.sharesFilled && s'.keysHeld == s.keysHeld && s'.raw == some (slots s')
-  && (if load then
-        s'.locked && s'.status == .byUtls
-        && (match s.state with
-            | .ticketInit =>
-              s'.state == .ticketAllSet && sameObjs s s'
-              && (match s.tRef with
-                  | some r => s'.hsSession == (s.tObj r).sess && s'.helloTicket == (s.tObj r).ticket
-                  | none => false)
-            | .pskInit =>
-              s'.state == .pskAllSet && sameObjs s s' && pskSynced s'
-              && (match s.pRef with
-                  | some r => s'.hsSession == (s.pObj r).sess && s'.hsEarly == (s.pObj r).sess && s'.helloPsk == (s.pObj r).id
-                  | none => false)
-            | _ => (s'.state == .noSession && sameObjs s s' && freshObjs s') || s'.state == .ticketAllSet
-                    || (s'.state == .pskAllSet && pskSynced s'))
-      else
-        !s'.locked && s'.status == .notBuilt && s'.state == s.state && sameObjs s s' && s'.tracker == s.tracker
-        && s'.hsSession == s.hsSession && s'.hsEarly == s.hsEarly && s'.helloTicket == s.helloTicket && s'.helloPsk == s.helloPsk)
-
-theorem mid_applyConfig (cfg : Cfg) (s : St) (h : mid cfg s = true) : mid cfg (applyConfig s) = true := by
-  simpa [mid, applyConfig, keysOk, usable, freshObjs] using h
-
-theorem afterLoad_marshal (s : St) (h : afterLoad s = true) : afterLoad (marshal s) = true := by
-  simpa [afterLoad, marshal, keysOk, pskSynced, freshObjs, St.pObj] using h
-
-theorem tail_mid_noload (cfg : Cfg) (lr : LoadRes) (s : St) (h : mid cfg s = true) :
-    ∃ s', buildTail cfg false lr s = (s', none) ∧ tailOk false s s' = true := by
-  refine ⟨marshal (applyConfig s), ?_, ?_⟩
-  · simp [buildTail, okR, R.andThen]
-  · simp [tailOk, marshal, applyConfig, slots, sameObjs]
-    simp [mid] at h
-    simp_all
-
-
-theorem buildTail_load_eq (cfg : Cfg) (lr : LoadRes) (s : St) :
-    buildTail cfg true lr s = (uLoadSession cfg lr (applyConfig s)).andThen fun s => finish (marshal s) := rfl
-
-/-- how a failed build tail leaves the state: only the documented `assertCanSkip` panic can happen. -/
-def tailFail (cfg : Cfg) (s s' : St) (o : Outcome) : Bool :=
-  o == .panic .documented .canskip && !cfg.skipOnNil && (s.tRef.isNone != s.pRef.isNone) && s.state == .noSession
-  && s'.state == .noSession && s'.status == .notBuilt && !s'.locked && !s'.hsDone && s'.hasCache == s.hasCache && sameObjs s s'
-  && s'.tRef == s.tRef && s'.pRef == s.pRef && s'.keysHeld == s.keysHeld && s'.sharesFilled == s.sharesFilled
 
 set_option maxHeartbeats 1000000 in
 theorem tail_mid_load (cfg : Cfg) (lr : LoadRes) (s : St) (h : mid cfg s = true) :
@@ -92,44 +46,6 @@ theorem tail_mid_load (cfg : Cfg) (lr : LoadRes) (s : St) (h : mid cfg s = true)
       all_goals
         rcases htr : s.tRef with _ | _ | _ <;> rcases hpr : s.pRef with _ | _ | _ <;>
           simp_all [tailOk, sameObjs, slots, St.tObj, St.pObj, pskSynced]
-
-
-/-! ## from the pieces to `buildHandshakeState` -/
-
-theorem mid_inv (cfg : Cfg) (s : St) (hg : cfg.golang = false) (h : mid cfg s = true) : inv cfg s = true := by
-  simp only [mid, Bool.and_eq_true, Bool.or_eq_true, beq_iff_eq] at h
-  cases hst : s.state <;> simp_all [inv]
-
-theorem tailOk_inv (cfg : Cfg) (load : Bool) (s s' : St) (hg : cfg.golang = false) (hm : mid cfg s = true)
-    (ht : tailOk load s s' = true) : inv cfg s' = true := by
-  simp only [mid, Bool.and_eq_true, Bool.or_eq_true, beq_iff_eq] at hm
-  cases load <;> cases hst : s.state <;> simp_all [tailOk, inv, keysOk, usable, sameObjs]
-  · simp_all [freshObjs]
-  · rcases ht with ⟨_, _, (h1 | h2) | h3⟩ <;> simp_all [freshObjs]
-
-theorem tailFail_inv (cfg : Cfg) (s s' : St) (o : Outcome) (hg : cfg.golang = false) (hm : mid cfg s = true)
-    (ht : tailFail cfg s s' o = true) : inv cfg s' = true ∧ o.isAssertion = false := by
-  simp only [mid, Bool.and_eq_true, Bool.or_eq_true, beq_iff_eq] at hm
-  simp_all [tailFail, inv, keysOk, usable, sameObjs, freshObjs, Outcome.isAssertion]
-
-
-/-- result of a build on a locked parrot connection (see `tail_locked`). -/
-def lockedSame (cfg : Cfg) (s s' : St) : Bool :=
-  inv cfg s' && sessionView s' == sessionView s && s'.hsDone == s.hsDone && s'.hasCache == s.hasCache
-  && s'.status == s.status && s'.tracker == s.tracker && s'.keysHeld == s.keysHeld && s'.sharesFilled == s.sharesFilled
-  && s'.lT == s.lT && s'.lP == s.lP && sameObjs s s' && s'.tRef == s.tRef && s'.pRef == s.pRef
-
-/-- the state the tail of a build starts from: `s` itself for HelloCustom, else `s` after the preset. -/
-def PresetOf (cfg : Cfg) (s s1 : St) : Prop :=
-  mid cfg s1 = true ∧ (if cfg.custom = true then s1 = s else presetOk cfg s s1 = true)
-
-def BuiltOk (cfg : Cfg) (load : Bool) (s s' : St) : Prop :=
-  (s.locked = true ∧ lockedSame cfg s s' = true) ∨
-  (s.status = .notBuilt ∧ ∃ s1, PresetOf cfg s s1 ∧ tailOk load s1 s' = true)
-
-def BuiltFail (cfg : Cfg) (s s' : St) (o : Outcome) : Prop :=
-  s.status = .notBuilt ∧
-  ((cfg.custom = false ∧ presetFail cfg s s' o = true) ∨ ∃ s1, PresetOf cfg s s1 ∧ tailFail cfg s1 s' o = true)
 
 theorem tail_mid (cfg : Cfg) (load : Bool) (lr : LoadRes) (s : St) (h : mid cfg s = true) :
     (match buildTail cfg load lr s with
@@ -203,5 +119,66 @@ theorem build_parrot (cfg : Cfg) (load : Bool) (lr : LoadRes) (s : St) (hg : cfg
         cases o with
         | none => exact Or.inr ⟨hst, s1, ⟨hm1, by simp [hc, hp']⟩, ht⟩
         | some o => exact ⟨hst, Or.inr ⟨s1, ⟨hm1, by simp [hc, hp']⟩, ht⟩⟩
+
+theorem build_parrot_inv (cfg : Cfg) (load : Bool) (lr : LoadRes) (s : St) (hg : cfg.golang = false)
+    (h : inv cfg s = true) (hd : s.hsDone = false) :
+    inv cfg (buildHandshakeState cfg load lr s).1 = true
+    ∧ ((buildHandshakeState cfg load lr s).2.getD .ok).isAssertion = false
+    ∧ (buildHandshakeState cfg load lr s).1.hsDone = false
+    ∧ ((buildHandshakeState cfg load lr s).2 = none → load = true → (buildHandshakeState cfg load lr s).1.locked = true) := by
+  have hb := build_parrot cfg load lr s hg h hd
+  generalize buildHandshakeState cfg load lr s = r at hb ⊢
+  obtain ⟨s', o⟩ := r
+  cases o with
+  | none =>
+    rcases hb with ⟨hl, hs⟩ | ⟨hst, s1, ⟨hm1, _⟩, ht⟩
+    · simp only [lockedSame, sessionView, Bool.and_eq_true, beq_iff_eq] at hs
+      simp_all [Outcome.isAssertion]
+    · have hi := tailOk_inv cfg load s1 s' hg hm1 ht
+      refine ⟨hi, by simp [Outcome.isAssertion], ?_, ?_⟩
+      · simp only [tailOk, Bool.and_eq_true] at ht; simp_all
+      · intro _ hload; subst hload; simp only [tailOk, Bool.and_eq_true] at ht; simp_all
+  | some o =>
+    rcases hb with ⟨hst, ⟨hc, hf⟩ | ⟨s1, ⟨hm1, _⟩, hf⟩⟩
+    · have hm' : mid cfg s' = true := by
+        have := hf; simp only [presetFail, Bool.and_eq_true] at this; simp_all
+      refine ⟨mid_inv cfg s' hg hm', ?_, ?_, by simp⟩
+      · simp only [presetFail, Bool.and_eq_true, Bool.or_eq_true, beq_iff_eq] at hf
+        rcases hf with ⟨_, ⟨h1, _⟩ | ⟨h1, _⟩⟩ <;> simp_all [Outcome.isAssertion]
+      · simp only [mid, Bool.and_eq_true] at hm'; simp_all
+    · have := tailFail_inv cfg s1 s' o hg hm1 hf
+      refine ⟨this.1, this.2, ?_, by simp⟩
+      simp only [tailFail, Bool.and_eq_true] at hf; simp_all
+
+/-- an injected extension whose kind the spec lacks makes every build return the documented error. -/
+theorem build_spec_lacks (cfg : Cfg) (load : Bool) (lr : LoadRes) (s : St) (hg : cfg.golang = false) (hc : cfg.custom = false)
+    (h : inv cfg s = true) (hd : s.hsDone = false) :
+    (s.state = .ticketInit → cfg.specT = false → (buildHandshakeState cfg load lr s).2 = some (.err .noTicketSpec))
+    ∧ (s.state = .pskInit → cfg.specP = false → (buildHandshakeState cfg load lr s).2 = some (.err .noPskSpec)) := by
+  have hb := build_parrot cfg load lr s hg h hd
+  have hinv := h
+  simp only [inv, hg, Bool.and_eq_true, Bool.or_eq_true, beq_iff_eq] at hinv
+  have noPreset : ∀ s1, PresetOf cfg s s1 →
+      (s.state = .ticketInit → cfg.specT = false → False) ∧ (s.state = .pskInit → cfg.specP = false → False) := by
+    intro s1 ⟨hm1, hp⟩
+    simp only [hc, Bool.false_eq_true, if_false] at hp
+    simp only [presetOk, mid, Bool.and_eq_true, Bool.or_eq_true, beq_iff_eq] at hp
+    constructor
+    · intro hst hT; rw [hst, hT] at hp; simp only [Bool.false_eq_true, if_false] at hp; grind
+    · intro hst hP; rw [hst, hP] at hp; simp only [Bool.false_eq_true, if_false] at hp; grind
+  generalize buildHandshakeState cfg load lr s = r at hb ⊢
+  obtain ⟨s', o⟩ := r
+  cases o with
+  | none =>
+    rcases hb with ⟨hl, _⟩ | ⟨_, s1, hp, _⟩
+    · constructor <;> intro hst _ <;> simp_all
+    · have := noPreset s1 hp
+      exact ⟨fun a b => (this.1 a b).elim, fun a b => (this.2 a b).elim⟩
+  | some o =>
+    rcases hb with ⟨_, ⟨_, hf⟩ | ⟨s1, hp, _⟩⟩
+    · simp only [presetFail, Bool.and_eq_true, Bool.or_eq_true, beq_iff_eq] at hf
+      constructor <;> intro hst _ <;> simp_all
+    · have := noPreset s1 hp
+      exact ⟨fun a b => (this.1 a b).elim, fun a b => (this.2 a b).elim⟩
 
 end SessionCtl
